@@ -20,7 +20,6 @@ Project distribution.
 """
 import collections
 import functools
-import json
 import logging
 import pathlib
 import re
@@ -270,6 +269,6 @@ class Manifest(collections.namedtuple('Manifest', 'name, version, package, modul
         with path.open('w') as manifest:
             manifest.write(
                 self.TEMPLATE.substitute(
-                    name=self.name, version=self.version, package=self.package, modules=json.dumps(dict(self.modules))
+                    name=self.name, version=self.version, package=self.package, modules=repr(dict(self.modules))
                 )
             )
